@@ -2,7 +2,7 @@
 //! fields `queue` / `buffers`, the private `pop` / `add_buffer_to_queue` and the private fields of
 //! `VirtQueue` are visible).  Appended to the scratch copy of src/queue/owning.rs.
 //!
-//! All harnesses are BOUNDED STAND-INS for the Verus unit `owning` (which has no bound): queue size N = 4,
+//! All harnesses are BOUNDED STAND-INS for the Verus unit `owning` (which has no bound): queue size N = 2 or 4,
 //! buffer size B = 4, the number of events stated per harness.  Within those bounds the inputs are fully
 //! symbolic (which posted buffer the device picks, the length it reports, the bytes it writes, the ring index
 //! the history starts at).
@@ -13,12 +13,11 @@ use crate::transport::DeviceType;
 use crate::verif_support::*;
 use core::sync::atomic::Ordering;
 
-const N: usize = 4;
 const B: usize = 4;
-type Q = OwningQueue<KHal, N, B>;
+type Q<const N: usize> = OwningQueue<KHal, N, B>;
 
 /// a fully stocked owning queue on a fresh virtqueue whose ring indices (driver and device side) start at `start`
-fn mk(event_idx: bool, start: u16) -> (Q, KTransport) {
+fn mk<const N: usize>(event_idx: bool, start: u16) -> (Q<N>, KTransport) {
     log_reset();
     let mut t = KTransport::new(DeviceType::Socket);
     let mut q = VirtQueue::<KHal, N>::new(&mut t, 0, false, event_idx, false).unwrap();
@@ -28,24 +27,24 @@ fn mk(event_idx: bool, start: u16) -> (Q, KTransport) {
         (*q.avail.as_ptr()).idx.store(start, Ordering::Release);
         (*q.used.as_ptr()).idx.store(start, Ordering::Release);
     }
-    let oq = Q::new(q).unwrap();
+    let oq = Q::<N>::new(q).unwrap();
     (oq, t)
 }
 
-unsafe fn dev_desc(q: &VirtQueue<KHal, N>, i: usize) -> Descriptor {
+unsafe fn dev_desc<const N: usize>(q: &VirtQueue<KHal, N>, i: usize) -> Descriptor {
     unsafe { (*(q.desc.as_ptr() as *const [Descriptor; N]))[i].clone() }
 }
-fn buf_addr(oq: &Q, i: usize) -> usize {
+fn buf_addr<const N: usize>(oq: &Q<N>, i: usize) -> usize {
     oq.buffers[i].as_ptr() as *mut u8 as usize
 }
-fn avail_idx(oq: &Q) -> u16 {
+fn avail_idx<const N: usize>(oq: &Q<N>) -> u16 {
     unsafe { (*oq.queue.avail.as_ptr()).idx.load(Ordering::Acquire) }
 }
-fn avail_slot(oq: &Q, idx: u16) -> u16 {
+fn avail_slot<const N: usize>(oq: &Q<N>, idx: u16) -> u16 {
     unsafe { (*oq.queue.avail.as_ptr()).ring[(idx & (N as u16 - 1)) as usize] }
 }
 /// the device writes `bytes` into the buffer of `token` and marks it used with length `len`
-fn dev_complete(oq: &mut Q, token: u16, len: u32, bytes: [u8; B]) {
+fn dev_complete<const N: usize>(oq: &mut Q<N>, token: u16, len: u32, bytes: [u8; B]) {
     unsafe {
         *oq.buffers[token as usize].as_ptr() = bytes;
         let u = oq.queue.used.as_ptr();
@@ -58,7 +57,7 @@ fn dev_complete(oq: &mut Q, token: u16, len: u32, bytes: [u8; B]) {
 }
 /// C19 invariant on the real data structure: every token i is posted with exactly `buffers[i]`
 /// (descriptor i: device address of buffers[i], length B, device-writable, no chaining), nothing free
-fn fully_stocked(oq: &Q) {
+fn fully_stocked<const N: usize>(oq: &Q<N>) {
     assert!(oq.queue.num_used as usize == N, "C19: number of posted buffers is not the queue size");
     let mut i = 0;
     while i < N {
@@ -71,13 +70,9 @@ fn fully_stocked(oq: &Q) {
 
 /// `new` on a fresh queue: tokens 0..N-1 in order (its assert_eq! does not fire), the N ring slots following the
 /// start index hold 0..N-1, available index advanced by N, every buffer a distinct allocation, no notification
-/// sent by `new`.  Bound: N = 4, B = 4; both event-index settings; ANY 16-bit start index.
-#[kani::proof]
-#[kani::unwind(10)]
-fn c19_new_stocked() {
-    let event_idx: bool = kani::any();
-    let start: u16 = 0xfffe;
-    let (oq, _t) = mk(event_idx, start);
+/// sent by `new`.  Bound: B = 4 and N / event-index / start index as stated at the two instantiations below.
+fn new_stocked<const N: usize>(event_idx: bool, start: u16) {
+    let (oq, _t) = mk::<N>(event_idx, start);
     fully_stocked(&oq);
     assert!(avail_idx(&oq) == start.wrapping_add(N as u16) && oq.queue.avail_idx == avail_idx(&oq), "C19: new() must publish exactly SIZE entries");
     let mut i = 0;
@@ -97,8 +92,17 @@ fn c19_new_stocked() {
     }
 }
 
+/// quick tier: N = 2, ANY event-index setting, start index 0xffff (the index wraps inside `new`)
+#[kani::proof]
+#[kani::unwind(10)]
+fn c19_new_stocked_n2() { new_stocked::<2>(kani::any(), 0xffff); }
+/// thorough tier: N = 4, event-index on, start index 0xfffe
+#[kani::proof]
+#[kani::unwind(10)]
+fn c19_new_stocked_n4() { new_stocked::<4>(true, 0xfffe); }
+
 /// one `poll` round; returns what the handler saw
-fn poll_once(oq: &mut Q, t: &mut KTransport, ret: Result<Option<u8>>) -> (usize, usize, usize, [u8; B], Result<Option<u8>>) {
+fn poll_once<const N: usize>(oq: &mut Q<N>, t: &mut KTransport, ret: Result<Option<u8>>) -> (usize, usize, usize, [u8; B], Result<Option<u8>>) {
     let mut calls = 0usize;
     let mut ptr = 0usize;
     let mut len = 0usize;
@@ -122,14 +126,11 @@ fn poll_once(oq: &mut Q, t: &mut KTransport, ret: Result<Option<u8>>) -> (usize,
 /// the handler runs exactly once per event on exactly the first `len` bytes of that token's buffer, its result is
 /// returned, the buffer is re-posted under the same token in the next available-ring slot, and the queue is fully
 /// stocked after every poll.  The ring indices start at 0xfffd so both 16-bit indices wrap during the history.
-/// Bound: N = 4, B = 4, 2 events.
-#[kani::proof]
-#[kani::unwind(10)]
-fn c19_poll_any_token() {
-    let event_idx: bool = kani::any();
-    let (mut oq, mut t) = mk(event_idx, 0xfffd);
+/// Bound: B = 4; N, number of events and event-index as stated at the instantiations below.
+fn poll_any_token<const N: usize>(event_idx: bool, rounds: usize) {
+    let (mut oq, mut t) = mk::<N>(event_idx, 0xfffd);
     let mut round = 0;
-    while round < 2 {
+    while round < rounds {
         let tok: u16 = kani::any();
         kani::assume((tok as usize) < N);
         let len: u32 = kani::any();
@@ -158,12 +159,23 @@ fn c19_poll_any_token() {
     }
 }
 
-/// C19: a burst of two completions (ANY two distinct posted buffers, in ANY order) before the driver polls:
-/// delivered in completion (used-ring) order, one per poll, then nothing.  Bound: N = 4, B = 4, burst of 2.
+/// quick tier: N = 2, one event on ANY of the two buffers, no event-index
 #[kani::proof]
 #[kani::unwind(10)]
-fn c19_burst_order() {
-    let (mut oq, mut t) = mk(false, 0xffff);
+fn c19_poll_any_token_n2() { poll_any_token::<2>(false, 1); }
+/// thorough tier: N = 2, two events (ANY tokens, so the second may reuse the first buffer), ANY event-index setting
+#[kani::proof]
+#[kani::unwind(10)]
+fn c19_poll_any_token_n2x2() { poll_any_token::<2>(kani::any(), 2); }
+/// thorough tier: N = 4, two events, event-index on
+#[kani::proof]
+#[kani::unwind(10)]
+fn c19_poll_any_token_n4x2() { poll_any_token::<4>(true, 2); }
+
+/// C19: a burst of two completions (ANY two distinct posted buffers, in ANY order) before the driver polls:
+/// delivered in completion (used-ring) order, one per poll, then nothing.  Bound: B = 4, burst of 2, N as instantiated.
+fn burst_order<const N: usize>() {
+    let (mut oq, mut t) = mk::<N>(false, 0xffff);
     let t1: u16 = kani::any();
     let t2: u16 = kani::any();
     kani::assume((t1 as usize) < N && (t2 as usize) < N && t1 != t2);
@@ -183,14 +195,21 @@ fn c19_burst_order() {
     assert!(c3 == 0 && r3 == Ok(None), "C19: an event was delivered twice");
 }
 
+/// thorough tier: N = 2 (both orders of the two buffers)
+#[kani::proof]
+#[kani::unwind(10)]
+fn c19_burst_order_n2() { burst_order::<2>(); }
+/// thorough tier: N = 4 (any two of the four buffers, either order)
+#[kani::proof]
+#[kani::unwind(10)]
+fn c19_burst_order_n4() { burst_order::<4>(); }
+
 /// C07 on `poll`: ANY used-ring contents (index, id, length: full 16/32/32-bit domains): the call ends in
 /// Ok(None) / Err(WrongToken) / Err(IoError) / a delivery of at most B bytes of the reported token's buffer; never a
 /// panic or an out-of-bounds access (Kani's memory-safety checks).  After IoError the buffer is NOT re-posted:
-/// SIZE-1 buffers remain posted (documented behaviour, see report).  Bound: N = 4, B = 4, one poll.
-#[kani::proof]
-#[kani::unwind(10)]
-fn c19_poll_any_used_ring() {
-    let (mut oq, mut t) = mk(false, 0);
+/// SIZE-1 buffers remain posted (documented behaviour, see report).  Bound: B = 4, one poll, N as instantiated.
+fn poll_any_used_ring<const N: usize>() {
+    let (mut oq, mut t) = mk::<N>(false, 0);
     let uidx: u16 = kani::any();
     let id: u32 = kani::any();
     let len: u32 = kani::any();
@@ -216,3 +235,11 @@ fn c19_poll_any_used_ring() {
         fully_stocked(&oq);
     }
 }
+/// quick tier: N = 2
+#[kani::proof]
+#[kani::unwind(10)]
+fn c19_poll_any_used_ring_n2() { poll_any_used_ring::<2>(); }
+/// thorough tier: N = 4
+#[kani::proof]
+#[kani::unwind(10)]
+fn c19_poll_any_used_ring_n4() { poll_any_used_ring::<4>(); }
